@@ -1,10 +1,12 @@
 package sod
 
 import (
+	"bytes"
 	"encoding/json"
 	"errors"
 	"fmt"
 	"regexp"
+	"strconv"
 	"time"
 )
 
@@ -26,13 +28,18 @@ func (f *indexedField) MarshalJSON() ([]byte, error) {
 
 func (f *indexedField) UnmarshalJSON(data []byte) error {
 	var tuple []interface{}
-	if err := json.Unmarshal(data, &tuple); err != nil {
+	var err error
+
+	// numbers are kept as json.Number because 64 bits integers
+	// (i.e. timestamps) cannot be represented exactly as float64
+	dec := json.NewDecoder(bytes.NewReader(data))
+	dec.UseNumber()
+	if err = dec.Decode(&tuple); err != nil {
 		return err
 	}
 	f.Value = tuple[0]
-	// Json unmarshals integer to interface{} as float64
-	f.ObjectId = uint64(tuple[1].(float64))
-	return nil
+	f.ObjectId, err = strconv.ParseUint(tuple[1].(json.Number).String(), 10, 64)
+	return err
 }
 
 func (f *indexedField) String() string {
@@ -76,15 +83,27 @@ func newIndexedField(value interface{}, objid uint64) (*indexedField, error) {
 }
 
 func (f *indexedField) valueTypeFromString(t string) {
-	// we cast everything to float64 because json unmarshal interface{}
-	// to float64 and that is a current limitation of the indexing
+	// numbers are unmarshaled as json.Number so that
+	// 64 bits integers do not lose precision
 	switch t {
 	case "float64":
-		f.Value = f.Value.(float64)
+		v, err := f.Value.(json.Number).Float64()
+		if err != nil {
+			panic(err)
+		}
+		f.Value = v
 	case "int64":
-		f.Value = int64(f.Value.(float64))
+		v, err := strconv.ParseInt(f.Value.(json.Number).String(), 10, 64)
+		if err != nil {
+			panic(err)
+		}
+		f.Value = v
 	case "uint64":
-		f.Value = uint64(f.Value.(float64))
+		v, err := strconv.ParseUint(f.Value.(json.Number).String(), 10, 64)
+		if err != nil {
+			panic(err)
+		}
+		f.Value = v
 	case "string":
 	default:
 		panic(fmt.Errorf("%w %s", ErrUnknownKeyType, t))
